@@ -121,7 +121,13 @@ def analyse_metric(repo: Repo, rep: Report, file: str, cname: str, fwd_atoms: Di
                 n += 1
                 early_writes = True
     if len(rets) != 1:
-        rep.undecided("ACC", comp, "compute()", f"{len(rets)} returns")
+        # several exits (an explicit empty-state return ...): decided by evaluating compute() on accumulator states
+        eg_, tg_ = (sorted(b_ for b_ in bufs if "err" in b_) + [None])[0], (sorted(b_ for b_ in bufs if "total" in b_ or "tot" in b_) + [None])[0]
+        cst_, cd_ = compute_evaluated(repo, ci, comp, f"self.{eg_}" if eg_ else None, f"self.{tg_}" if tg_ else None)
+        rep.add("ACC", comp, f"compute() with {len(rets)} returns", cst_, cd_, node=comp.node)
+        n += 1
+        if cst_ == OK:
+            err_attr, tot_attr = f"self.{eg_}", f"self.{tg_}"
     else:
         from ..astutil import Inliner
 
@@ -139,7 +145,12 @@ def analyse_metric(repo: Repo, rep: Report, file: str, cname: str, fwd_atoms: Di
             numt = tt.eval(num, {})
             dent = tt.eval(den, {})
             ok = err_attr is not None and numt == single(err_attr) and guard and dent in (single(f"max({tot_attr},1)"), single(f"max(1,{tot_attr})"))
-            rep.check(bool(ok), "ACC", comp, f"compute: {unparse(rets[0].value)}", f"rate = {err_attr} / max({tot_attr}, 1): exact fraction with zero guard", "compute() is not errors / max(total, 1) over the two accumulators", node=rets[0])
+            if ok:
+                rep.ok("ACC", comp, f"compute: {unparse(rets[0].value)}", f"rate = {err_attr} / max({tot_attr}, 1): exact fraction with zero guard", node=rets[0])
+            else:
+                # another spelling of the quotient / of the zero guard: decided by evaluating compute() on accumulator states
+                cst_, cd_ = compute_evaluated(repo, ci, comp, err_attr, tot_attr)
+                rep.add("ACC", comp, f"compute: {unparse(rets[0].value)}", cst_, cd_ if cst_ != UNDECIDED else f"not the listed form errors / max(total, 1), and not evaluable ({cd_})", node=rets[0])
             n += 1
         elif not early_writes:
             rep.undecided("ACC", comp, f"compute: {unparse(rets[0].value)}", "not a quotient")
@@ -311,6 +322,38 @@ STREAM_COMPLEX = (
     ([[0.1 + 0.9j, 0.6 + 0.6j]], [[0.9 + 0.8j, 0.4 + 0.7j]]),
     ([[0.9 + 0.9j, 0.1 + 0.8j], [0.2 + 0.1j, 0.7 + 0.2j]], [[0.1 + 0.1j, 0.9 + 0.2j], [0.8 + 0.9j, 0.7 + 0.2j]]),
 )
+
+
+def compute_evaluated(repo: Repo, ci, comp, err_attr, tot_attr):
+    """compute() evaluated (own arithmetic) on accumulator states: the empty state gives 0 (no division by zero), every other
+    state the exact quotient errors / total."""
+    from ..constfold import Unfoldable
+    from ..frag import FragRaise, FragReturn, run_fragment
+
+    if err_attr is None or tot_attr is None:
+        return UNDECIDED, "accumulators not identified"
+    funcs = {f"self.{m}": fi_.node for m, fi_ in ci.methods.items() if m not in ("forward", "update", "compute", "reset", "__init__")}
+    for e_, t_ in ((0, 0), (0, 1), (1, 1), (0, 5), (5, 5), (3, 12), (1, 3), (7, 1000003)):
+        attrs = {err_attr: e_, tot_attr: t_}
+        try:
+            run_fragment(comp.body, {}, attrs, funcs=funcs, max_steps=20000, attrs_live=True)
+            return UNDECIDED, "no value returned"
+        except FragReturn as ret:
+            got = ret.value
+        except FragRaise:
+            return VIOLATION, f"compute() raises for errors = {e_}, total = {t_}"
+        except ZeroDivisionError:
+            return VIOLATION, "compute() divides by zero on the empty state (no data accumulated yet)"
+        except (Unfoldable, TypeError, ValueError) as exc:
+            return UNDECIDED, str(exc)
+        while isinstance(got, list) and len(got) == 1:
+            got = got[0]
+        if isinstance(got, bool) or not isinstance(got, (int, float)):
+            return UNDECIDED, f"result {got!r} is not a number"
+        want = 0.0 if t_ == 0 else e_ / t_
+        if abs(got - want) > 1e-15 * max(1.0, want) or attrs != {err_attr: e_, tot_attr: t_}:
+            return VIOLATION, f"compute() with errors = {e_}, total = {t_} returns {got}" + (f" and leaves the accumulators as {attrs}" if attrs != {err_attr: e_, tot_attr: t_} else "") + f"; the exact rate is {want}"
+    return OK, "unlisted spelling; evaluated on eight accumulator states (the empty state included): the exact quotient errors / total, 0 on the empty state, accumulators untouched"
 
 
 def streaming_evaluated(repo: Repo, ci, err_attr: str, tot_attr: str, attrs0: Dict[str, object]):
